@@ -105,6 +105,12 @@ func registerIntrinsics(e *Engine) {
 		return e.i64(e.concretize(st, args[0].(*smt.Term), "nd.Concrete")), true
 	}
 	I[nd+"ConcreteU64"] = I[nd+"Concrete"]
+	// PoolReuse(true): sync.Pool.Get may return any object previously Put (explored by forking);
+	// default: Get always returns New() and Put discards.
+	I[nd+"PoolReuse"] = func(e *Engine, st *State, th *Thread, args []Value, call *ssa.CallCommon) (Value, bool) {
+		st.PoolReuse = args[0].(*smt.Term).IsTrue()
+		return nil, true
+	}
 	I[nd+"Symbolic"] = func(e *Engine, st *State, th *Thread, args []Value, call *ssa.CallCommon) (Value, bool) {
 		return e.C.True, true
 	}
@@ -380,7 +386,7 @@ func registerSync(e *Engine) {
 	}
 	I["(*sync.Pool).Put"] = func(e *Engine, st *State, th *Thread, args []Value, call *ssa.CallCommon) (Value, bool) {
 		iv := args[1].(Iface)
-		if iv.T == nil {
+		if iv.T == nil || !st.PoolReuse {
 			return nil, true
 		}
 		o := poolItems(st, args[0].(Ptr), true)
